@@ -7,7 +7,7 @@ from ..common import run_apps, app, out_of, sig
 from ..appcase import AppCase
 from ..core import unhx
 
-THEOREMS = ['pick_precedence', 'load_uses_effective', 'database_precedence', 'logfile_precedence', 'date_format_precedence', 'maxdepth_precedence', 'today_precedence', 'config_entries_iff_loaded', 'explicit_config_missing_is_error', 'explicit_config_loaded', 'no_database_is_empty_book', 'empty_book_same_parse', 'today_shown_as_given']
+THEOREMS = ['pick_precedence', 'load_uses_effective', 'database_precedence', 'logfile_precedence', 'date_format_precedence', 'maxdepth_precedence', 'today_precedence', 'config_entries_iff_loaded', 'explicit_config_missing_is_error', 'explicit_config_loaded', 'no_database_is_empty_book', 'empty_book_same_parse', 'today_shown_as_given', 'no_database_touches_only_the_book']
 LEVEL = 'proof'
 RULE = ('the full product {flag set/unset} x {env set/unset} x {config entry set / unset / file absent} x config location {default, --config, HR_CONFIG} '
         'for database, logfile, date-format and maxdepth, flag x config for the current date, with a distinguishable value at every level, and with an explicit flag / environment value that equals the built-in default; explicitly '
